@@ -9,6 +9,7 @@ import Driver.C01
 import Driver.C15
 import Driver.C10
 import Driver.C14
+import Driver.C14c
 import Driver.C09
 import Driver.C07
 
@@ -26,6 +27,7 @@ def main (args : List String) : IO UInt32 := do
   | ["c15"] => C15Val.main stdin
   | ["c10"] => C10Val.main stdin
   | ["c14"] => C14Val.main stdin
+  | ["c14c"] => C14cVal.main stdin
   | ["c09"] => C09Val.main stdin
   | ["c07"] => C07Val.main stdin
   | _ => do IO.eprintln "usage: midriver <trval|entry|...>"; return 2
